@@ -205,6 +205,18 @@ class Frozen(DataClassDictMixin):
     a: int
     u: UUID = UUID(int=2)
 
+@dataclass
+class Bag(SerializableType, use_annotations=True):
+    items: List[datetime.date]
+    n: int = 0
+
+    def _serialize(self) -> Tuple[int, List[datetime.date]]:
+        return (self.n, self.items)
+
+    @classmethod
+    def _deserialize(cls, value: Tuple[int, List[datetime.date]]) -> "Bag":
+        return cls(value[1], value[0])
+
 class SType(SerializableType):
     def __init__(self, v):
         self.v = v
@@ -251,7 +263,7 @@ CTORS = [
     ("uni", "Union[int, {X}]", ("union",)), ("ann", "Annotated[{X}, 'meta']", ()),
     ("final", "Final[{X}]", ("fieldonly",)),
 ]
-UNHASHABLE = {"any", "nt", "td", "tdnt", "plain", "mix", "inh", "gen_int", "gen_date", "bytearray", "pattern", "none", "optd",
+UNHASHABLE = {"stype_ann", "any", "nt", "td", "tdnt", "plain", "mix", "inh", "gen_int", "gen_date", "bytearray", "pattern", "none", "optd",
               "selfref", "lvl3", "self_toml", "self_msgpack", "self_orjson", "nto", "tdo", "outerg_date", "outerg_int"}
 # union with int: members whose wire form is int/bool/float/str-compatible are lossy
 UNION_LOSSY = {"int", "bool", "float", "any", "intenum", "intflag", "num", "newtype", "timedelta", "none", "lit",
@@ -280,6 +292,8 @@ EXTRA = [
     ("nested_map", "Dict[str, List[Dict[str, int]]]", ()),
     ("stype", "SType", ("stype",)),
     ("list_stype", "List[SType]", ("stype",)),
+    # use_annotations=True: the value handed to / returned by the user methods is converted according to their annotations
+    ("stype_ann", "Bag", ("stype",)), ("opt_stype_ann", "Optional[Bag]", ("stype", "thorough")),
     ("gen_opt", "Gen[Optional[str]]", ()),
     ("tvar_opt", "Tuple[Optional[int], ...]", ()), ("tfix_opt", "Tuple[int, Optional[datetime.date]]", ()),
     ("opt_tvar_opt", "Optional[Tuple[Optional[int], ...]]", ()), ("list_opt_date", "List[Optional[datetime.date]]", ()),
